@@ -263,9 +263,11 @@ def case_strategy(draw):
         tc = draw(st.sampled_from("dd" + ("z" if f in ("axpy", "gemv", "gemm") else "")))
         c.update(f=f, tc=tc, m=draw(st.integers(0, 3)), n=draw(st.integers(0, 3)), k=draw(st.integers(0, 3)),
                  spA=draw(st.booleans()), spB=draw(st.booleans()), spC=draw(st.booleans()),
-                 transA=draw(st.sampled_from("NNT" + ("C" if tc == "z" else ""))), transB=draw(st.sampled_from("NNT")),
+                 transA=draw(st.sampled_from("NNTC")), transB=draw(st.sampled_from("NNTC")),
                  alpha=draw(st.sampled_from([1.0, 1.0, -1.0, 0.5, 0.0, 2.0])), beta=draw(st.sampled_from([0.0, 1.0, 1.0, -1.0, 0.5])),
                  partial=draw(st.booleans()), seed=draw(st.integers(0, 10 ** 6)), uplo=draw(st.sampled_from("LU")))
+        if f in ("gemv", "symv") and draw(st.booleans()):
+            c.update(incx=draw(st.sampled_from([1, 2, -1, -2])), incy=draw(st.sampled_from([1, 2, -1, -2, -1])))
     return c
 
 
@@ -315,13 +317,15 @@ def blas_case(c, labels):
         A = mkA(m, n)
         tA = c["transA"]
         xl, yl = (n, m) if tA == "N" else (m, n)
-        x, y = rnd_dn(rng, tc, xl, 1), rnd_dn(rng, tc, yl, 1)
+        ix, iy = c.get("incx", 1), c.get("incy", 1)
+        what += " incx=%d incy=%d" % (ix, iy)
+        x, y = rnd_dn(rng, tc, 1 + (xl - 1) * abs(ix) if xl else 0, 1), rnd_dn(rng, tc, 1 + (yl - 1) * abs(iy) if yl else 0, 1)
         yd = matrix(y)
         try:
-            base.gemv(A, x, y, trans=tA, alpha=al, beta=be)
+            base.gemv(A, x, y, trans=tA, alpha=al, beta=be, incx=ix, incy=iy)
         except EXC as e:
             raise Violation("%s raised %s: %s" % (what, type(e).__name__, e))
-        base.gemv(matrix(A), x, yd, trans=tA, alpha=al, beta=be)
+        base.gemv(matrix(A), x, yd, trans=tA, alpha=al, beta=be, incx=ix, incy=iy)
         res, resd, partial, pat = y, yd, False, None
     elif f == "gemm":
         tA, tB = c["transA"], c["transB"]
@@ -367,12 +371,23 @@ def blas_case(c, labels):
         return
     else:  # symv
         A = mkA(n, n)
-        x, y = rnd_dn(rng, "d", n, 1), rnd_dn(rng, "d", n, 1)
-        yd = matrix(y)
+        ix, iy = c.get("incx", 1), c.get("incy", 1)
+        what += " incx=%d incy=%d" % (ix, iy)
+        xs, ys = rnd_dn(rng, "d", n, 1), rnd_dn(rng, "d", n, 1)
+        # strided copies (BLAS convention: a negative increment runs backwards through the buffer)
+        xb, yb = matrix(7.0, (1 + (n - 1) * abs(ix) if n else 0, 1)), matrix(9.0, (1 + (n - 1) * abs(iy) if n else 0, 1))
+        for i in range(n):
+            xb[(i if ix > 0 else n - 1 - i) * abs(ix)] = xs[i]
+            yb[(i if iy > 0 else n - 1 - i) * abs(iy)] = ys[i]
+        yb0 = matrix(yb)
         try:
-            base.symv(A, x, y, uplo=c["uplo"], alpha=al, beta=be)
+            base.symv(A, xb, yb, uplo=c["uplo"], alpha=al, beta=be, incx=ix, incy=iy)
         except EXC as e:
             raise Violation("%s raised %s: %s" % (what, type(e).__name__, e))
+        x, y, yd = xs, matrix([yb[(i if iy > 0 else n - 1 - i) * abs(iy)] for i in range(n)], (n, 1), "d"), ys
+        for k_ in range(len(yb)):
+            if k_ % abs(iy) != 0 and yb[k_] != yb0[k_]:
+                raise Violation("%s: element %d of y between the addressed elements changed" % (what, k_))
         # reference: symmetric matrix defined by the uplo triangle of A
         Ad = matrix(A)
         S = matrix(0.0, (n, n))
